@@ -335,7 +335,8 @@ def check(prop: str, tier: str, batch_seed: int, repo: str, workers: int = 16,
             if not new_viols and not known_hits:
                 raise HarnessError("outcomes depend on process history but no run reported a violation: "
                                    f"{total['cross_conflicts'][:5]}")
-        total["new_violation_classes"] = len(new_viols)
+        total["new_violation_classes"] = len(replays) + max(0, len(new_viols) - (max_report + 4)) if replays else 0
+        total["unconfirmed_classes"] = len(unconfirmed)
         total["known_hits"] = {known[n]["what"]: c for n, c in known_hits.items()}
     except HarnessError as e:
         print(f"[verif] HARNESS ERROR: {e}", flush=True)
@@ -398,6 +399,7 @@ def write_evidence(prop: str, meta, tier: str, batch_seed: int, total: Dict[str,
         "truncated_by_wall": total.get("truncated_by_wall", False),
         "known_findings_hit": total.get("known_hits", {}),
         "new_violation_classes": total.get("new_violation_classes", 0),
+        "classes_not_replayable_in_fresh_interpreter": total.get("unconfirmed_classes", 0),
     }
     if hasattr(meta, "evidence_extra"):
         cov.update(meta.evidence_extra(total))
